@@ -154,6 +154,7 @@ fn contains_leaves(p: &Pred, positive: bool, out: &mut Vec<(String, bool)>) {
 
 pub const AT_LEAST_SIG: &str = "index-at-least-result-read-as-exact-unguaranteed-rows-never-rechecked";
 pub const PARTIAL_ZONE_SIG: &str = "zone-index-rows-between-full-zone-and-fragment-end-fall-into-next-fragments-zone";
+pub const DELETED_ZONE_SIG: &str = "zone-index-trained-on-fragment-with-deleted-rows-has-shifted-zones";
 pub const STABLE_ZONE_SIG: &str = "zone-index-with-stable-row-ids-returns-row-addresses";
 pub const NGRAM_NO_TRIGRAM_SIG: &str = "ngram-query-of-3-or-more-bytes-without-alphanumeric-trigram-returns-no-rows";
 
@@ -163,6 +164,8 @@ struct Ctx<'a> {
     zone: u64,
     addr: &'a BTreeMap<i64, u64>,
     frag_rows: &'a BTreeMap<u32, u64>,
+    /// the history has a delete followed later by an index update (optimize_indices)
+    delete_then_optimize: bool,
 }
 
 /// Narrow class of a deviation of an inexact index (dataset level or index level); None = unknown.
@@ -197,6 +200,11 @@ fn classify(cx: &Ctx, pred: &Pred, extra: &[i64], missing: &[i64]) -> Option<&'s
     };
     if missing.iter().all(in_tail) {
         return Some(PARTIAL_ZONE_SIG);
+    }
+    if cx.delete_then_optimize {
+        // zones are positioned by counting the rows streamed at training time: a fragment that has
+        // deleted rows when it is indexed gets zones shifted against the physical offsets
+        return Some(DELETED_ZONE_SIG);
     }
     // NOT over an AtMost result is an AtLeast result
     let mut neg = vec![];
@@ -374,7 +382,12 @@ pub fn run(args: &Args) -> i32 {
                 let metas = t.ds.load_indices_by_name("x_idx").await.unwrap_or_default();
                 let frag_rows: BTreeMap<u32, u64> =
                     t.ds.get_fragments().iter().map(|f| (f.id() as u32, f.metadata().physical_rows.unwrap_or(0) as u64)).collect();
-                let cx = Ctx { kind, stable: t.stable_row_ids, zone: zone_size.max(1), addr: &addr, frag_rows: &frag_rows };
+                let delete_then_optimize = {
+                    // (an UPDATE deletes the old versions of the rows it rewrites)
+                    let d = t.history.iter().position(|h| h.starts_with("delete(") || h.starts_with("update("));
+                    d.map(|d| t.history[d + 1..].iter().any(|h| h.starts_with("optimize("))).unwrap_or(false)
+                };
+                let cx = Ctx { kind, stable: t.stable_row_ids, zone: zone_size.max(1), addr: &addr, frag_rows: &frag_rows, delete_then_optimize };
                 let gen = PredGen::new(
                     m,
                     GenCfg {
